@@ -456,6 +456,28 @@ def apalache_leg(module, inv, length, what, init=None):
     return leg
 
 
+def tlaps_leg(module, what):
+    """A TLAPS proof (spec/tlaps/<module>.tla): every obligation must be proved. A failure is a
+    specification error (exit 2), never a verdict about the code."""
+    def leg(ctx):
+        d = tempfile.mkdtemp(prefix='tlaps-', dir=ctx['scratch'])
+        shutil.copy(os.path.join(SPEC, 'tlaps', module + '.tla'), d)
+        t0 = time.time()
+        try:
+            p = subprocess.run(['tlapm', '--threads', '4', '--cleanfp', module + '.tla'], cwd=d, capture_output=True, text=True, timeout=900,
+                               env=dict(os.environ, TMPDIR=d))
+        except subprocess.TimeoutExpired:
+            raise HarnessError('tlapm timed out on %s' % module)
+        out = p.stdout + p.stderr
+        m = re.search(r'All (\d+) obligations? proved', out)
+        if p.returncode != 0 or not m:
+            raise HarnessError('tlapm did not prove %s:\n%s' % (module, tail(out, 30)))
+        log('[tlaps] %s: all %s obligations proved (%s) %.1fs' % (module, m.group(1), what, time.time() - t0))
+        return ({'kind': 'mbt', 'info': {'tlaps': module + '.tla', 'obligations_proved': int(m.group(1)), 'what': what,
+                                         'secs': round(time.time() - t0, 1)}}, [])
+    return leg
+
+
 def apalache_masks_leg(ctx):
     return apalache_leg('Masks', 'Inv', 1, 'RandomID masks for all pairs of 63-bit draws')(ctx)
 
